@@ -103,10 +103,6 @@ fn ring_of(peers: &[PeerSpec], only_dc: Option<u32>) -> Vec<(i64, usize)> {
     r
 }
 
-fn has_dup_tokens(ring: &[(i64, usize)]) -> bool {
-    ring.windows(2).any(|w| w[0].0 == w[1].0)
-}
-
 /// Distinct nodes clockwise from the token: owners of tokens >= tok in ascending order, then the rest.
 fn clockwise_distinct(ring: &[(i64, usize)], tok: i64) -> Vec<usize> {
     let mut out: Vec<usize> = Vec::new();
@@ -294,50 +290,39 @@ pub fn run(case: &str, ctx: &mut Ctx) -> String {
     let v = observe(&main, tok, &strategy, dcn.as_deref(), ctx, "replica set");
 
     // ---- the placement rules (brute force) ----
+    // Members owning the same token are walked in ring (metadata) order, first owner first.
     let global = ring_of(&peers, None);
-    let global_ok = !has_dup_tokens(&global);
-    let dc_ok = |d: u32| !has_dup_tokens(&ring_of(&peers, Some(d)));
     let dc_of = |id: u64| peers.iter().find(|p| p.id == id).and_then(|p| p.dc);
-    let mut hypothesis = true; // tokens pairwise distinct within each ring consulted
     match &strat {
         Strat::Simple(_) | Strat::Local | Strat::Other => {
             let rf = if let Strat::Simple(rf) = &strat { *rf } else { 1 };
-            hypothesis = global_ok;
-            if global_ok {
-                let mut want = brute_simple(&peers, tokn, rf);
-                if let Some(d) = dc {
-                    want.retain(|id| dc_of(*id) == Some(d));
-                }
-                if v.iter != want {
-                    ctx.fail(format!("replicas {:?}, the placement rule (first RF distinct nodes clockwise) gives {:?}", v.iter, want));
-                }
+            let mut want = brute_simple(&peers, tokn, rf);
+            if let Some(d) = dc {
+                want.retain(|id| dc_of(*id) == Some(d));
+            }
+            if v.iter != want {
+                ctx.fail(format!("replicas {:?}, the placement rule (first RF distinct nodes clockwise) gives {:?}", v.iter, want));
             }
         }
         Strat::Nts(repf) => match dc {
             Some(d) => {
-                hypothesis = dc_ok(d);
-                if hypothesis {
-                    let want = repf.iter().find(|(x, _)| *x == d).map(|(_, rf)| brute_nts_dc(&peers, tokn, d, *rf)).unwrap_or_default();
-                    if v.iter != want {
-                        ctx.fail(format!("replicas {:?}, the placement rule (rack-aware walk of dc{}) gives {:?}", v.iter, d, want));
-                    }
+                let want = repf.iter().find(|(x, _)| *x == d).map(|(_, rf)| brute_nts_dc(&peers, tokn, d, *rf)).unwrap_or_default();
+                if v.iter != want {
+                    ctx.fail(format!("replicas {:?}, the placement rule (rack-aware walk of dc{}) gives {:?}", v.iter, d, want));
                 }
             }
             None => {
-                hypothesis = repf.iter().all(|(d, _)| dc_ok(*d));
-                if hypothesis {
-                    let mut want: Vec<u64> = repf.iter().flat_map(|(d, rf)| brute_nts_dc(&peers, tokn, *d, *rf)).collect();
-                    want.sort_unstable();
-                    if sorted(&v.iter) != want {
-                        ctx.fail(format!("replicas {:?}, the placement rule (rack-aware walk per datacenter) gives the set {:?}", v.iter, want));
-                    }
+                let mut want: Vec<u64> = repf.iter().flat_map(|(d, rf)| brute_nts_dc(&peers, tokn, *d, *rf)).collect();
+                want.sort_unstable();
+                if sorted(&v.iter) != want {
+                    ctx.fail(format!("replicas {:?}, the placement rule (rack-aware walk per datacenter) gives the set {:?}", v.iter, want));
                 }
             }
         },
     }
 
     // ---- ring order of the ordered view ----
-    if global_ok {
+    {
         let order = clockwise_distinct(&global, tokn);
         let pos = |id: u64| order.iter().position(|i| peers[*i].id == id);
         let ps: Vec<Option<usize>> = v.ord.iter().map(|id| pos(*id)).collect();
@@ -357,13 +342,12 @@ pub fn run(case: &str, ctx: &mut Ctx) -> String {
     }
 
     // ---- precomputed answer = on-the-fly answer ----
-    if hypothesis {
+    {
         let none = cluster(w[1], &peers, "-", &[]);
         let only = cluster(w[1], &peers, w[3], std::slice::from_ref(&strat));
         for (name, cs) in [("no keyspace precomputed", &none), ("only this strategy precomputed", &only)] {
             let o = observe(cs, tok, &strategy, dcn.as_deref(), ctx, name);
-            let same_iter = if matches!(strat, Strat::Nts(_)) && dc.is_none() { o.iter == v.iter } else { o.iter == v.iter };
-            if !same_iter || o.len != v.len || (global_ok && o.ord != v.ord) {
+            if o != v {
                 ctx.fail(format!(
                     "answer depends on precomputation: with keyspaces {} len={} iter={:?} ord={:?}; with {} len={} iter={:?} ord={:?}",
                     w[2], v.len, v.iter, v.ord, name, o.len, o.iter, o.ord
@@ -567,10 +551,10 @@ pub fn generate(rng: &mut Rng, tier: Tier, emit: &mut dyn FnMut(String)) {
     let topologies = if quick { 1200 } else { 24_000 };
     for i in 0..topologies {
         let shape = match i % 4 {
-            0 => TopoShape { max_nodes: 5, max_dcs: 2, max_racks: 2, max_vnodes: 2, cross_dc_dups: false },
-            1 => TopoShape { max_nodes: 12, max_dcs: 3, max_racks: 4, max_vnodes: 4, cross_dc_dups: false },
-            2 => TopoShape { max_nodes: 8, max_dcs: 3, max_racks: 3, max_vnodes: 3, cross_dc_dups: true },
-            _ => TopoShape { max_nodes: 12, max_dcs: 2, max_racks: 4, max_vnodes: 2, cross_dc_dups: false },
+            0 => TopoShape { max_nodes: 5, max_dcs: 2, max_racks: 2, max_vnodes: 2, dups: 0 },
+            1 => TopoShape { max_nodes: 12, max_dcs: 3, max_racks: 4, max_vnodes: 4, dups: 0 },
+            2 => TopoShape { max_nodes: 8, max_dcs: 3, max_racks: 3, max_vnodes: 3, dups: 1 },
+            _ => TopoShape { max_nodes: 12, max_dcs: 2, max_racks: 4, max_vnodes: 2, dups: 2 },
         };
         let peers = gen_topology(rng, shape);
         emit_topology(rng, &peers, 5, 6, emit);
